@@ -44,6 +44,7 @@ class Collector:
         self.depth = 0              # >0 while monitor (harness) code is running
         self.sample_every = 1
         self.python_optimize = False
+        self.strict_warnings = False
         self._sample_tick = 0
 
     # -- counters ---------------------------------------------------------
@@ -87,6 +88,7 @@ class Collector:
             'case': jsonable(self.case),
             'case_index': self.case_index,
             'python_optimize': self.python_optimize,
+            'strict_warnings': self.strict_warnings,
             'last_events': [jsonable(e) for e in self.events],
         })
 
